@@ -6,10 +6,10 @@
 (* accumulated.                                                               *)
 EXTENDS TraceBase, Call
 
-VARIABLES l, eng
-vars == <<callVars, l, eng>>
+VARIABLES l, eng, mapSelf   \* mapSelf: identity of the map object that was asked for the coordinates of the call in flight
+vars == <<callVars, l, eng, mapSelf>>
 
-Init == /\ l = 1 /\ eng = <<0, 0>>
+Init == /\ l = 1 /\ eng = <<0, 0>> /\ mapSelf = 0
         /\ cfg = [kind |-> "none", d |-> 0, k |-> 0, n |-> 0, w |-> <<>>, bins |-> 0, calls |-> 0, noSq |-> FALSE]
         /\ phase = "Idle" /\ pos = 0 /\ cur = NoCall
         /\ acc = [calls |-> 0, nz |-> 0, fin |-> 0, sum |-> 0, sumsq |-> 0, adj |-> <<>>, exact |-> TRUE]
@@ -17,7 +17,7 @@ Init == /\ l = 1 /\ eng = <<0, 0>>
 Ev == TheTrace[l]
 Is(name) == l <= TraceLen /\ Ev.e = name
 Step == l' = l + 1
-Keep == UNCHANGED eng
+Keep == UNCHANGED <<eng, mapSelf>>
 
 TIterBegin ==
     /\ Is("IterBegin")
@@ -28,11 +28,12 @@ TIterBegin ==
     /\ Step
 
 TDraw == Keep /\ Is("Draw") /\ Draw(Ev.n) /\ Step
-TMapCoord == Keep /\ Is("MapCoord") /\ MapCoord(Ev.ch, Ev.enabled, Ev.rn, Ev.caddr, Ev.daddr, Ev.unitOK = 1) /\ Step
+TMapCoord == Is("MapCoord") /\ UNCHANGED eng /\ mapSelf' = Ev.self /\ MapCoord(Ev.ch, Ev.enabled, Ev.rn, Ev.caddr, Ev.daddr, Ev.unitOK = 1) /\ Step
 TMapCoordDone == Keep /\ Is("MapCoordDone") /\ MapCoordDone(Ev.csum, Ev.dsum) /\ Step
 TIntBegin == Keep /\ Is("IntBegin") /\ IntBegin(Ev.unitOK = 1, Ev.chan, Ev.csum, Ev.caddr) /\ Step
 TWeightReq == Keep /\ Is("WeightReq") /\ WeightReq /\ Step
-TMapDens == Keep /\ Is("MapDens") /\ MapDens(Ev.ch, Ev.rn, Ev.caddr, Ev.csum, Ev.daddr, Ev.dsum) /\ Step
+\* "the map is asked for densities": the object that computed the coordinates, not a copy of it (a map may keep state between the two requests)
+TMapDens == Is("MapDens") /\ Keep /\ Ev.self = mapSelf /\ MapDens(Ev.ch, Ev.rn, Ev.caddr, Ev.csum, Ev.daddr, Ev.dsum) /\ Step
 TIntEnd == Keep /\ Is("IntEnd") /\ IntEnd(<<Ev.vt, Ev.v>>, <<Ev.wt, Ev.w>>, Ev.p, Ev.bin) /\ Step
 
 TIterEnd ==
@@ -48,7 +49,7 @@ TIterEnd ==
     /\ Step /\ Keep
 
 \* informational marker: which engine / numeric type the following iterations use
-TEngine == Is("Engine") /\ phase = "Idle" /\ Step /\ UNCHANGED callVars /\ eng' = <<Ev.digits, Ev.lg>>
+TEngine == Is("Engine") /\ phase = "Idle" /\ Step /\ UNCHANGED <<callVars, mapSelf>> /\ eng' = <<Ev.digits, Ev.lg>>
 
 Next == TEngine \/ TIterBegin \/ TDraw \/ TMapCoord \/ TMapCoordDone \/ TIntBegin \/ TWeightReq \/ TMapDens \/ TIntEnd \/ TIterEnd
 Spec == Init /\ [][Next]_vars
